@@ -484,6 +484,12 @@ class Emitter:
                 if n in self.consts:
                     return self.consts[n]
                 raise TranslateError('unknown variable %s' % n)
+            if len(p) == 2 and getattr(self, 'uint_mode', False) == 'value' and p[0] == 'Self':
+                vm = {'LIMBS': ('LIMBS', 'usize'), 'BITS': ('BITS', 'usize'), 'ZERO': ('0', 'uint'),
+                      'ONE': ('(1 % 2 ^ BITS)', 'uint'), 'MAX': ('(2 ^ BITS - 1)', 'uint'), 'MIN': ('0', 'uint')}
+                if p[1] in vm:
+                    return vm[p[1]]
+                raise TranslateError('unsupported Self::%s in value mode' % p[1])
             if len(p) == 2 and getattr(self, 'uint_mode', False) and p[0] == 'Self':
                 um = {'LIMBS': ('LIMBS', 'usize'), 'BITS': ('BITS', 'usize'), 'MASK': ('(mask BITS)', 'u64'),
                       'ZERO': ('(List.replicate LIMBS 0)', 'uint'),
@@ -542,6 +548,10 @@ class Emitter:
         if k == 'index':
             s, t = self.expr(e[1], env)
             i, _ = self.expr(e[2], env, 'usize')
+            if t == 'uint' and getattr(self, 'uint_mode', False) == 'value':
+                if i != '0':
+                    raise TranslateError('limb access other than limbs[0] in value mode')
+                return '(%s %% 2 ^ 64)' % s, 'u64'
             if t in ('uint', 'slice', 'mutslice'):
                 return '(%s.getD %s 0)' % (s, i), 'u64'
             if t[0] != 'array':
@@ -573,6 +583,12 @@ class Emitter:
         if op in ('<<', '>>'):
             sa, ta = self.expr(a, env, exp)
             sb, _ = self.expr(b, env, 'u32')
+            if ta == 'uint':
+                if getattr(self, 'uint_mode', False) != 'value':
+                    raise TranslateError('shift of a Uint (limb mode)')
+                if op == '<<':
+                    return '((%s * 2 ^ %s) %% 2 ^ BITS)' % (sa, sb), ta
+                return '(%s / 2 ^ %s)' % (sa, sb), ta
             if op == '<<':
                 return '(Rs.wshl %d %s %s)' % (self.w(ta), sa, sb), ta
             return '(%s / 2 ^ %s)' % (sa, sb), ta
@@ -583,6 +599,20 @@ class Emitter:
         else:
             sa, ta = self.expr(a, env, exp)
             sb, tb = self.expr(b, env, ta)
+        if 'uint' in (ta, tb) and getattr(self, 'uint_mode', False) != 'value' and op not in ('==', '!='):
+            raise TranslateError('operator %s on Uint operands (limb mode)' % op)
+        if ta == 'uint' and getattr(self, 'uint_mode', False) == 'value' and op not in ('==', '!=', '<', '>', '<=', '>='):
+            # value mode: a Uint is its numeric value; the arithmetic operators are the wrapping ones (C01/C02)
+            if op == '+':
+                return '((%s + %s) %% 2 ^ BITS)' % (sa, sb), 'uint'
+            if op == '-':
+                return '((%s + 2 ^ BITS - %s) %% 2 ^ BITS)' % (sa, sb), 'uint'
+            if op == '*':
+                return '((%s * %s) %% 2 ^ BITS)' % (sa, sb), 'uint'
+            if op == '%':
+                # `a % m` on Uint panics for m = 0; the value-level term is Lean's total `%` (a for m = 0): callers guard it
+                return '(%s %% %s)' % (sa, sb), 'uint'
+            raise TranslateError('operator %s on Uint values' % op)
         if op in ('==', '!=', '<', '>', '<=', '>='):
             lop = {'==': '==', '!=': '!=', '<': '<', '>': '>', '<=': '≤', '>=': '≥'}[op]
             if op in ('==', '!='):
@@ -658,9 +688,42 @@ class Emitter:
             ss = ['fuel'] + ss
         return '(%s %s)' % (ln, ' '.join(ss)), rt
 
+    VALUE_METHODS = {
+        # name: (template over (self, args…), result type) — the value-level meaning of the Uint method (theorems of C01–C06)
+        'is_zero': ('(%s == 0)', 'bool'),
+        'bit': ('(decide (%s < BITS) && Nat.testBit %s %s)', 'bool'),
+        'wrapping_mul': ('((%s * %s) %% 2 ^ BITS)', 'uint'),
+        'wrapping_add': ('((%s + %s) %% 2 ^ BITS)', 'uint'),
+        'wrapping_sub': ('((%s + 2 ^ BITS - %s) %% 2 ^ BITS)', 'uint'),
+        'overflowing_mul': ('((%s * %s) %% 2 ^ BITS, decide (2 ^ BITS ≤ %s * %s))', ('tuple', ['uint', 'bool'])),
+        'overflowing_add': ('((%s + %s) %% 2 ^ BITS, decide (2 ^ BITS ≤ %s + %s))', ('tuple', ['uint', 'bool'])),
+    }
+
     def mcall(self, e, env, exp):
         _, recv, name, args = e
         sr, tr = self.expr(recv, env, exp)
+        if tr == 'uint' and getattr(self, 'uint_mode', False) == 'value':
+            ext = getattr(self, 'externs', {})
+            if name in ext:
+                tmpl, rt = ext[name]
+                ss = [sr] + [self.expr(a, env, None)[0] for a in args]
+                return '(' + tmpl % tuple(ss) + ')', rt
+            if ('UintV::' + name) in self.fns:      # only functions translated in value mode themselves
+                sig = self.fns['UintV::' + name]
+                ss = ['BITS', 'LIMBS', sr] + [self.expr(a, env, self.ty(pt))[0] for a, pt in zip(args, sig[1][1:])]
+                if len(sig) > 3 and sig[3]:
+                    self.uses_fuel = True
+                    ss = ['fuel'] + ss
+                return '(%s %s)' % (sig[0], ' '.join(ss)), sig[2]
+            if name in self.VALUE_METHODS:
+                tmpl, rt = self.VALUE_METHODS[name]
+                aa = [self.expr(a, env, 'uint' if name != 'bit' else 'usize')[0] for a in args]
+                if name == 'bit':
+                    return '(' + tmpl % (aa[0], sr, aa[0]) + ')', rt
+                if name in ('overflowing_mul', 'overflowing_add'):
+                    return '(' + tmpl % (sr, aa[0], sr, aa[0]) + ')', rt
+                return '(' + tmpl % tuple([sr] + aa) + ')', rt
+            raise TranslateError('Uint method %s has no value-level meaning here' % name)
         if isinstance(tr, str) and tr in WIDTH:
             w = WIDTH[tr]
             if name in ('wrapping_add', 'wrapping_sub', 'wrapping_mul'):
@@ -1174,6 +1237,8 @@ class Emitter:
     def lean_ty(self, t):
         if t == 'bool':
             return 'Bool'
+        if t == 'uint' and getattr(self, 'uint_mode', False) == 'value':
+            return 'Nat'
         if t in ('uint', 'slice', 'mutslice') or (isinstance(t, tuple) and t[0] == 'array'):
             return 'List Nat'
         if isinstance(t, tuple) and t[0] == 'tuple':
@@ -1232,7 +1297,7 @@ def translate(items, namespace='Ruint.Gen', imports=('Ruint.Gen.Prelude',), fns=
             text = extract_fn(src, it['fn'])
             fn = Parser(tokenize(text)).parse_fn()
             em = Emitter(fns, it.get('self_ty'), structs=it.get('structs'), gconsts=it.get('gconsts'), self_name=it.get('self_name'))
-            em.uint_mode = bool(it.get('uint'))
+            em.uint_mode = it.get('uint') or False     # True: limb lists; 'value': a Uint is its numeric value
             em.externs = it.get('externs', {})
             code = em.function(fn, it['lean'])
             key = it.get('key', it['fn'])
@@ -1331,13 +1396,35 @@ def redc_loop_items(repo):
             {'file': f, 'fn': 'square_redc', 'lean': 'square_redc', 'group': 'redcloops'}]
 
 
+def value_items(repo):
+    """L2 ('value mode'): a Uint is its numeric value; callee methods are their value-level meanings (VALUE_METHODS) or the
+    model function named in `externs`. Ties the control structure of the wrappers to the L2 models."""
+    out = []
+    for fn in ('overflowing_pow', 'wrapping_pow'):
+        out.append({'file': repo + '/src/pow.rs', 'fn': fn, 'lean': 'val_' + fn, 'key': 'UintV::' + fn, 'self_ty': 'uint',
+                    'uint': 'value', 'group': 'value'})
+    ext = {'mul_mod': ('Ruint.Modular.mulMod BITS %s %s %s', 'uint')}
+    for fn in ('reduce_mod', 'add_mod', 'pow_mod'):
+        out.append({'file': repo + '/src/modular.rs', 'fn': fn, 'lean': 'val_' + fn, 'key': 'UintV::' + fn, 'self_ty': 'uint',
+                    'uint': 'value', 'group': 'value', 'externs': ext})
+    return out
+
+
+def div_loop_items(repo):
+    f = repo + '/src/algorithms/div/small.rs'
+    return [{'file': f, 'fn': 'div_nx1_normalized', 'lean': 'div_nx1_normalized', 'group': 'divloops'},
+            {'file': f, 'fn': 'div_nx2_normalized', 'lean': 'div_nx2_normalized', 'group': 'divloops'}]
+
+
 GROUPS = [('core', 'Words', ('Ruint.Gen.Prelude',)),
           ('kernels', 'WordsKernels', ('Ruint.Gen.Words',)),
           ('uint', 'WordsUint', ('Ruint.Gen.Words',)),
           ('lehmer', 'WordsLehmer', ('Ruint.Gen.Prelude',)),
           ('redc', 'WordsRedc', ('Ruint.Gen.Words',)),
           ('redcloops', 'WordsRedcLoops', ('Ruint.Gen.WordsRedc',)),
-          ('div', 'WordsDiv', ('Ruint.Gen.Words',))]
+          ('div', 'WordsDiv', ('Ruint.Gen.Words',)),
+          ('divloops', 'WordsDivLoops', ('Ruint.Gen.WordsDiv',)),
+          ('value', 'WordsValue', ('Ruint.Gen.Prelude', 'Ruint.Model.Modular'))]
 
 
 def translate_all(repo):
@@ -1349,6 +1436,8 @@ def translate_all(repo):
     items += uint_items(repo)
     items += kernel_items(repo)
     items += redc_loop_items(repo)
+    items += div_loop_items(repo)
+    items += value_items(repo)
     try:
         items += lehmer_items(repo)
     except (OSError, IOError) as ex:
